@@ -10,6 +10,7 @@ mod progen;
 mod progen_c17;
 mod progen_c05;
 mod progen_c06;
+mod progen_c16;
 mod model;
 mod props;
 mod report;
